@@ -28,6 +28,12 @@ example : Facts.Auth.nonceBytes = 16 := by decide
 `strings.Split` + `len != 2` (defect `auth-basic-colon-password`, repaired) must not come back -/
 example : Facts.Auth.basicCutFirstColon = true ∧ Facts.Auth.basicLegacySplit = false := by decide
 example : Facts.Auth.basicStdEncoding = true := by decide
+/-- the digest helpers are functions of their argument (the model's `Hashes` are pure functions):
+`md5Hex` / `sha256Hex` build a fresh hasher per call and pkg/auth keeps no package-level state
+besides the compiled control-attribute regexp -/
+example : Facts.Auth.verifyFreshMd5PerCall = true ∧ Facts.Auth.verifyFreshSha256PerCall = true ∧
+    Facts.Auth.sharedHashState = false ∧ Facts.Auth.verifyPackageVars = 1 ∧ Facts.Auth.senderPackageVars = 0 ∧
+    Facts.Auth.wwwPackageVars = 0 ∧ Facts.Auth.noncePackageVars = 0 := by decide
 example : Facts.Auth.credentialsProvidedRule = true ∧ Facts.Auth.emptyUserRejected = true := by decide
 
 /-! ## what `Verify` accepts, exactly -/
